@@ -1037,8 +1037,8 @@ def ref_lines(mol_in, pre, res):
 
 
 def mcis_lines(mol_in, pre, res):
-    """-> [(residue index, answer number, protocol line)]: is the answer (mapped back) a maximum common induced subgraph
-    of residue and reference on element colours, according to the Lean reference?  answer number -1: no answer."""
+    """-> [(residue index, number of answers, protocol line)]: is every recorded answer (mapped back) a maximum common
+    induced subgraph of residue and reference on element colours, according to the Lean reference?"""
     out = []
     spy, snap = res['spy'], res['snap']
     by_residx = {r['residx']: r for r in snap['residues']}
@@ -1057,10 +1057,8 @@ def mcis_lines(mol_in, pre, res):
         sn = [[old_ref[n], elcode(rec['graph'].nodes[n].get('element'))] for n in rec['graph'].nodes]
         se = [[old_ref[u], old_ref[v]] for u, v in rec['graph'].edges]
         sn = bfs_order(sn, se)
-        if not rec['answers']:
-            out.append((i, -1, line('mcismem', gn, ge, sn, se, [])))
-        for j, ans in enumerate(rec['answers']):
-            out.append((i, j, line('mcismem', gn, ge, sn, se, [[old_ref[a], old_res[b]] for a, b in ans])))
+        out.append((i, len(rec['answers']),
+                    line('mcismem', gn, ge, sn, se, [[[old_ref[a], old_res[b]] for a, b in ans] for ans in rec['answers']])))
     return out
 
 
@@ -1432,8 +1430,31 @@ for cid, spec in all_specs:
 flat = []
 for p in pending:
     q = p[5]
-    flat += ([q['repair']] if q['repair'] else []) + [x[1] for x in q['ref']] + [x[2] for x in q['mcis']]
+    flat += ([q['repair']] if q['repair'] else []) + [x[1] for x in q['ref']]
+if os.environ.get('VERIF_DEBUG'):
+    print('real runs done at %.1f s; %d model lines' % (chk.elapsed(), len(flat)), flush=True)
+    open('/tmp/c04_lines.txt', 'w').write('\n'.join(flat) + '\n')
 answers = chk.drv.ask(flat) if chk.lean_ok else [None] * len(flat)
+
+
+def ask_with_timeout(lines, seconds):
+    """the exhaustive Lean reference can be slow on an unlucky pair of graphs: bounded, inconclusive when cut off"""
+    if not lines or not chk.lean_ok or not os.path.exists(chk.drv.exe):
+        return {}
+    try:
+        p = subprocess.run([chk.drv.exe], cwd=LEAN_DIR, input='\n'.join(lines) + '\n', stdout=subprocess.PIPE,
+                           stderr=subprocess.PIPE, text=True, timeout=seconds)
+        out = p.stdout.split('\n')
+    except subprocess.TimeoutExpired as err:
+        chk.count('mcis_reference_timeout')
+        chk.notes.append('Lean reference for the matcher cut off after %d s (inconclusive for the unanswered queries)' % seconds)
+        out = (err.stdout or b'').decode().split('\n')[:-1] if isinstance(err.stdout, bytes) else (err.stdout or '').split('\n')[:-1]
+    return {l: o for l, o in zip(lines, out) if o}
+
+
+mcis_answers = ask_with_timeout([x[2] for p in pending for x in p[5]['mcis']], 600 if chk.thorough else 60)
+if os.environ.get('VERIF_DEBUG'):
+    print('model answers at %.1f s' % chk.elapsed(), flush=True)
 ans = iter(answers)
 for cid, spec, mol_in, info, res, qs in pending:
     sp_json = json.dumps(spec, sort_keys=True)
@@ -1458,26 +1479,31 @@ for cid, spec, mol_in, info, res, qs in pending:
             if os.environ.get('VERIF_DEBUG'):
                 print(chk.notes[-1][:1500], flush=True)
     # every recorded answer of the matcher against the Lean reference (specification of the matcher)
-    for i, j, q in qs['mcis']:
-        a = next(ans)
+    for i, nans, q in qs['mcis']:
+        a = mcis_answers.get(q)
         if a is None:
+            chk.count('mcis_reference_no_answer')
             continue
         try:
-            size, member = a.split()
-        except ValueError:
-            errs.append('residue #%d: the Lean reference could not read the matcher query: %s' % (i, a))
+            size, members = dec(a)
+            assert len(members) == nans
+        except Exception:
+            errs.append('residue #%d: the Lean reference could not read the matcher query: %s' % (i, clip(a, 200)))
             continue
-        if j < 0:
-            if size != '0':
+        if nans == 0:
+            if size != 0:
                 errs.append('residue #%d: the matcher gave no answer although a common induced subgraph of %s atoms exists'
                             % (i, size))
             else:
                 chk.count('no_answer_confirmed_nothing_in_common')
-        elif member != '1':
-            errs.append('residue #%d: answer %d of the matcher (taken by make_reference: %s) is not a maximum common '
-                        'induced subgraph (maximum size %s)' % (i, j, j == 0, size))
-        else:
-            chk.count('mcis_size_confirmed' if j == 0 else 'later_answer_confirmed_maximum')
+        elif size == 0:
+            errs.append('residue #%d: the matcher answered although residue and reference have nothing in common' % i)
+        for j, member in enumerate(members):
+            if member != 1:
+                errs.append('residue #%d: answer %d of the matcher (taken by make_reference: %s) is not a maximum common '
+                            'induced subgraph (maximum size %s)' % (i, j, j == 0, size))
+            else:
+                chk.count('mcis_size_confirmed' if j == 0 else 'later_answer_confirmed_maximum')
     if qs['repair']:
         added = sum(1 for k in res['out'].nodes if k not in mol_in.nodes)
         flagged = sum(1 for k in res['out'].nodes if res['out'].nodes[k].get('PTM_atom'))
@@ -1574,12 +1600,12 @@ for t in range(6):
         sn = [[x, elcode(graph.nodes[x]['element'])] for x in graph.nodes]
         for a in got:
             qs.append(line('mcismem', gn, [list(e) for e in sub.edges], bfs_order(sn, [list(e) for e in graph.edges]),
-                           [list(e) for e in graph.edges], [[x, y] for x, y in a.items()]))
+                           [list(e) for e in graph.edges], [[[x, y] for x, y in a.items()]]))
             keep.append(('matcher-sym%d-%d' % (symmetry, t), a))
 for (cid, a), r in zip(keep, chk.drv.ask(qs) if chk.lean_ok and qs else [None] * len(qs)):
     chk.count('matcher_direct_answers')
     chk.case(cid, 'largest_common_subgraph %s %r' % (cid, a), repr(sorted(a.items())), None,
-             [] if r is None or r.endswith(' 1') else ['%s: answer %r is not a maximum common induced subgraph (%s)' % (cid, a, r)],
+             [] if r is None or r.endswith(' [ 1 ]') else ['%s: answer %r is not a maximum common induced subgraph (%s)' % (cid, a, r)],
              False)
 
 chk.finish()
